@@ -161,6 +161,23 @@ pub fn run(ctx: &Ctx) -> Report {
         }
         Ok(())
     }));
+    // thorough tier: different boards with COLLIDING hashes must still compare unequal
+    if ctx.tier == Tier::Thorough {
+        let mut part = PartResult::empty();
+        if let Ok(m) = super::c10::model() {
+            for (a, b) in crate::collide::kind_collision_pairs(m, 16) {
+                let (Some(ba), Some(bb)) = (build(&a), build(&b)) else { continue };
+                part.stats.eval(1);
+                part.stats.class_if(ba.hash() == bb.hash(), "constructed-hash-collision-pair");
+                part.stats.nontrivial(fnv(format!("{}|{}", a.text(), b.text()).as_bytes()));
+                if let Err(f) = check_pair(&ba, &bb, "constructed hash collision") {
+                    part.failures.push(f);
+                    break;
+                }
+            }
+        }
+        rep.add(part);
+    }
     rep
 }
 
